@@ -726,4 +726,216 @@ theorem propGetAtoms_frame {κ : Nat → String} {s : State} (h : InvK κ s) (hb
         intro p hp
         exact Nat.le_trans hgr.heap.len (hgr2.freshObj (Or.inl rfl) p hp)
 
+/-! ### `atoms[index] = other`: the loop over the properties -/
+
+/-- state of the `__setitem__` loop after the properties `done` were written. -/
+structure SetLoop (κ : Nat → String) (s : State) (src : Nat) (sel : Sel) (done : List PropRef) (st : State) : Prop where
+  objs : st.objs = s.objs
+  syss : st.syss = s.syss
+  heapLen : st.heap.length = s.heap.length
+  other : ∀ b, (∀ p ∈ done, b ≠ p.arr.buf) → st.buf b = s.buf b
+  cols : ∀ p ∈ done, ∃ a newRows, (s.obj src).find p.key = some a ∧ AssignedRows s p.arr sel (arrVal s a) newRows ∧
+    arrRows st p.arr = writeRows (arrRows s p.arr) (sel.pos.zip newRows)
+
+theorem arrVal_congr (s st : State) (a : Arr) (h : st.buf a.buf = s.buf a.buf) : arrVal st a = arrVal s a := by
+  simp [arrVal, arrDt, arrTrail, arrRows, h]
+
+theorem AssignedRows.congr {s st : State} {a : Arr} {sel : Sel} {v : Val} {newRows : List Row}
+    (h : AssignedRows st a sel v newRows) (hb : st.buf a.buf = s.buf a.buf) : AssignedRows s a sel v newRows := by
+  obtain ⟨flat, cells, h1, h2, h3⟩ := h
+  refine ⟨flat, cells, ?_, ?_, ?_⟩
+  · simpa [assignShape, hb] using h1
+  · simpa [hb] using h2
+  · simpa [hb] using h3
+
+theorem setItem_loop_refines {κ : Nat → String} {s : State} (hinv : InvK κ s) (o src : Nat) (sel : Sel)
+    (hpos : ∀ p ∈ sel.pos, p < (s.obj o).natoms) :
+    ∀ (todo done : List PropRef) (st : State), done ++ todo = (s.obj o).props → SetLoop κ s src sel done st →
+      Post (forEach todo (fun p => do
+        let s' ← getS
+        let a ← keyErr ((s'.obj src).find p.key)
+        assign p.arr sel (arrVal s' a))) st (fun r st' => r = .ok () → SetLoop κ s src sel (done ++ todo) st') := by
+  intro todo
+  induction todo with
+  | nil =>
+    intro done st _ hl _
+    show SetLoop κ s src sel (done ++ []) st
+    rw [List.append_nil]; exact hl
+  | cons p rest ih =>
+    intro done st hsplit hl
+    have hpmem : p ∈ (s.obj o).props := by rw [← hsplit]; simp
+    have hp0 := hinv.obj_props o p hpmem
+    have hnd : ((s.obj o).props.map (·.key)).Nodup := by
+      by_cases ho : o < s.objs.length
+      · exact hinv.nodup _ (obj_mem s o ho)
+      · rw [obj_ge s o (Nat.le_of_not_lt ho)]; simp [emptyObj]
+    -- the key of p was not processed yet
+    have hknew : p.key ∉ done.map (·.key) := by
+      rw [← hsplit] at hnd
+      simp only [List.map_append, List.map_cons] at hnd
+      have := (List.nodup_append.mp hnd).2.2
+      intro hc
+      exact this _ hc _ (by simp) rfl
+    show Post (M.bind _ (fun _ => forEach rest _)) st _
+    apply (post_bind _ _ _ _).mpr
+    rw [post_bind_getS, post_bind_keyErr]
+    have hobj : ∀ x, st.obj x = s.obj x := by intro x; simp [State.obj, hl.objs]
+    rw [hobj]
+    split
+    · rename_i a hfind
+      have ha := hinv.find_ok src p.key a hfind
+      -- donor array and target array are untouched so far
+      have hdone : ∀ q ∈ done, PropOK κ s (s.obj o).natoms q := by
+        intro q hq; exact hinv.obj_props o q (by rw [← hsplit]; simp [hq])
+      have hbuf_a : st.buf a.buf = s.buf a.buf := hl.other _ (by
+        intro q hq hc
+        have : q.key = p.key := by rw [← (hdone q hq).key, ← hc, ha.key]
+        exact hknew (List.mem_map.mpr ⟨q, hq, this⟩))
+      have hbuf_p : st.buf p.arr.buf = s.buf p.arr.buf := hl.other _ (by
+        intro q hq hc
+        have : q.key = p.key := by rw [← (hdone q hq).key, ← hc, hp0.key]
+        exact hknew (List.mem_map.mpr ⟨q, hq, this⟩))
+      rw [arrVal_congr s st a hbuf_a]
+      apply Post.mono (assign_wrote p.arr sel (arrVal s a) st)
+      intro r st1 ⟨_, h2⟩
+      cases r with
+      | error e => intro hc; cases hc
+      | ok u =>
+        simp only []
+        obtain ⟨newRows, hn, _, hw⟩ := h2 rfl
+        have hn' := hn.congr hbuf_p
+        have hvalid_st : ArrValid st p.arr := ⟨by rw [hl.heapLen]; exact hp0.valid.1, by rw [hbuf_p]; exact hp0.valid.2⟩
+        have hposl : ∀ i ∈ sel.pos, i < p.arr.idx.length := by rw [hp0.len]; exact hpos
+        have hrb := hw.readback hvalid_st hp0.nodup hposl
+        have hrows_p : arrRows st p.arr = arrRows s p.arr := by simp [arrRows, hbuf_p]
+        have hl1 : SetLoop κ s src sel (done ++ [p]) st1 := by
+          refine ⟨hw.objs.trans hl.objs, hw.syss.trans hl.syss, hw.heapLen.trans hl.heapLen, ?_, ?_⟩
+          · intro b hb
+            have hne : b ≠ p.arr.buf := hb p (by simp)
+            rw [hw.other b hne]
+            exact hl.other b (fun q hq => hb q (by simp [hq]))
+          · intro q hq
+            simp only [List.mem_append, List.mem_singleton] at hq
+            rcases hq with hq | rfl
+            · obtain ⟨a', nr', h1, h2', h3⟩ := hl.cols q hq
+              refine ⟨a', nr', h1, h2', ?_⟩
+              have hq0 := hinv.obj_props o q (by rw [← hsplit]; simp [hq])
+              have hne : q.arr.buf ≠ p.arr.buf := by
+                intro hc
+                have : q.key = p.key := by rw [← hq0.key, hc, hp0.key]
+                exact hknew (List.mem_map.mpr ⟨q, hq, this⟩)
+              rw [hw.read q.arr hne]
+              exact h3
+            · exact ⟨a, newRows, hfind, hn', by rw [hrb, hrows_p]⟩
+        have := ih (done ++ [p]) st1 (by rw [List.append_assoc]; simpa using hsplit) hl1
+        apply Post.mono this
+        intro r2 st2 hq hr2
+        have := hq hr2
+        simpa [List.append_assoc] using this
+    · intro hc; cases hc
+
+/-- **refines (`atoms[index] = other`)** — a returning `__setitem__` is, property by property, the record
+    update "atom `sel.pos[j]` := atom `j` of the donor" (the donor's column as it was *before* the call,
+    broadcast to the selection and cast to the target's dtype; later duplicates win); object tables and
+    Systems are untouched and every buffer that belongs to no property of the target is unchanged. -/
+theorem setItem_refines {κ : Nat → String} {s : State} (hinv : InvK κ s) (o : Nat) (ix : Index) (src : Nat) :
+    Post (setItem o ix src) s (fun r s' => r = .ok () →
+      ∃ sel, resolve (s.obj o).natoms (atomsIndex ix) = .ok sel ∧ s'.objs = s.objs ∧ s'.syss = s.syss ∧
+        (∀ p ∈ (s.obj o).props, ∃ a newRows, (s.obj src).find p.key = some a ∧
+          AssignedRows s p.arr sel (arrVal s a) newRows ∧
+          arrRows s' p.arr = writeRows (arrRows s p.arr) (sel.pos.zip newRows)) ∧
+        (∀ c : Arr, (∀ p ∈ (s.obj o).props, c.buf ≠ p.arr.buf) → arrRows s' c = arrRows s c)) := by
+  unfold setItem
+  rw [post_bind_getS]
+  simp only []
+  split
+  · intro hc; cases hc
+  · rw [post_bind_liftE]
+    cases hres : resolve (s.obj o).natoms (atomsIndex ix) with
+    | error e => intro hc; cases hc
+    | ok sel =>
+      simp only []
+      obtain ⟨hpos, _⟩ := resolve_ok _ _ _ hres
+      split
+      · intro hc; cases hc
+      · have h0 : SetLoop κ s src sel [] s := ⟨rfl, rfl, rfl, fun _ _ => rfl, fun p hp => by simp at hp⟩
+        apply Post.mono (setItem_loop_refines hinv o src sel hpos (s.obj o).props [] s (by simp) h0)
+        intro r s' hq hr
+        have hl := hq hr
+        simp only [List.nil_append] at hl
+        refine ⟨sel, rfl, hl.objs, hl.syss, hl.cols, ?_⟩
+        intro c hc
+        simp [arrRows, hl.other c.buf hc]
+
+/-! ### `view[key] = value` for a new key (a literal) -/
+
+/-- **refines (`view[key] = value`, new key)** — the value is broadcast to `natoms` rows (scalar and
+    leading-1 forms repeat the single row; the full form is taken row by row), stored in a buffer
+    allocated by the call and bound as the last property of the object; nothing else changes (the exact
+    resulting state is given). -/
+theorem viewSet_new_refines (o : Nat) (key : String) (v : Val) (s : State) (hnew : (s.obj o).find key = none) :
+    Post (viewSet o key (.lit v)) s (fun r s' => (∀ e, r = .error e → s' = s) ∧
+      (r = .ok () → ∃ lv t, BcastRes s (s.obj o).natoms (.lit v) (.lit lv) ∧ lv.shape = (s.obj o).natoms :: t ∧
+        s' = addedState { s with heap := s.heap ++ [⟨lv.dt, t, rowsOf (s.obj o).natoms (prod t) lv.data⟩] } o key
+          ⟨s.heap.length, List.range (s.obj o).natoms⟩)) := by
+  unfold viewSet
+  rw [post_bind_getS]
+  simp only []
+  rcases viewBcast_cases s (s.obj o).natoms (.lit v) with ⟨e, he⟩ | ⟨src', he, hres⟩
+  · rw [he, post_bind_fail]
+    exact ⟨fun _ _ => rfl, fun hc => by cases hc⟩
+  rw [he, post_bind_pure]
+  rcases viewGuard_cases key (s.obj o).natoms (srcVal s src') with ⟨e, hg⟩ | ⟨hg, _⟩
+  · rw [hg, post_bind_fail]
+    exact ⟨fun _ _ => rfl, fun hc => by cases hc⟩
+  rw [hg, post_bind_pure]
+  simp only [hnew]
+  have hres' := hres
+  rcases hres with ⟨lv, t, rfl, hshape, _, _⟩ | ⟨a, hsrc, _, _⟩
+  · simp only []
+    rw [post_bind]
+    apply Post.of_eq _ _ (allocVal_eq lv _ t hshape s)
+    simp only []
+    apply Post.of_eq _ _ (addProp_eq _ _ _ _)
+    refine ⟨?_, ?_⟩
+    · intro e hc; cases hc
+    · intro _
+      exact ⟨lv, t, hres', hshape, rfl⟩
+  · cases hsrc
+
+/-- the new column reads the rows of the broadcast value; every array that existed reads what it read. -/
+theorem viewSet_new_reads (s : State) (o : Nat) (key : String) (lv : Val) (t : List Nat) (ho : o < s.objs.length)
+    (hnew : (s.obj o).find key = none) :
+    let s' := addedState { s with heap := s.heap ++ [⟨lv.dt, t, rowsOf (s.obj o).natoms (prod t) lv.data⟩] } o key
+      ⟨s.heap.length, List.range (s.obj o).natoms⟩
+    (s'.obj o).find key = some ⟨s.heap.length, List.range (s.obj o).natoms⟩ ∧
+    arrRows s' ⟨s.heap.length, List.range (s.obj o).natoms⟩ = rowsOf (s.obj o).natoms (prod t) lv.data ∧
+    (s'.obj o).props = (s.obj o).props ++ [⟨key, ⟨s.heap.length, List.range (s.obj o).natoms⟩⟩] ∧
+    (∀ o', o' ≠ o → s'.obj o' = s.obj o') ∧ HeapExt s s' ∧ s'.syss = s.syss := by
+  intro s'
+  have hobj : ∀ x, ({ s with heap := s.heap ++ [⟨lv.dt, t, rowsOf (s.obj o).natoms (prod t) lv.data⟩] } : State).obj x
+      = s.obj x := fun _ => rfl
+  refine ⟨?_, ?_, ?_, ?_, ?_, rfl⟩
+  · show ((addedState _ o key _).obj o).find key = _
+    rw [obj_added]
+    simp only [show o < ({ s with heap := s.heap ++ [⟨lv.dt, t, rowsOf (s.obj o).natoms (prod t) lv.data⟩] } : State).objs.length from ho,
+      and_self, if_true, hobj]
+    exact find_append_self _ _ _ hnew
+  · show (List.range (s.obj o).natoms).map (fun i => ((addedState _ o key _).buf s.heap.length).rows[i]?.getD []) = _
+    have : (addedState { s with heap := s.heap ++ [⟨lv.dt, t, rowsOf (s.obj o).natoms (prod t) lv.data⟩] } o key
+        ⟨s.heap.length, List.range (s.obj o).natoms⟩).buf s.heap.length =
+        ⟨lv.dt, t, rowsOf (s.obj o).natoms (prod t) lv.data⟩ := by simp [State.buf, addedState]
+    rw [this]
+    have := map_range_getD (rowsOf (s.obj o).natoms (prod t) lv.data) []
+    rw [rowsOf_length] at this
+    exact this
+  · show ((addedState _ o key _).obj o).props = _
+    rw [obj_added]
+    simp only [show o < ({ s with heap := s.heap ++ [⟨lv.dt, t, rowsOf (s.obj o).natoms (prod t) lv.data⟩] } : State).objs.length from ho,
+      and_self, if_true, hobj]
+  · intro o' hne
+    show (addedState _ o key _).obj o' = _
+    rw [obj_added]; simp [hne]; rfl
+  · exact (heapExt_alloc s _).trans (heapExt_added _ _ _ _)
+
 end Atomman.C06
